@@ -104,6 +104,26 @@ func (s *byteSrc) ReadByte() (byte, error) {
 	return b, nil
 }
 
+// byteEOFSrc offers Read and ReadByte (no Peek); Read returns the last bytes together with io.EOF.
+type byteEOFSrc struct{ data []byte }
+
+func (s *byteEOFSrc) Read(p []byte) (int, error) {
+	n := copy(p, s.data)
+	s.data = s.data[n:]
+	if len(s.data) == 0 {
+		return n, io.EOF
+	}
+	return n, nil
+}
+func (s *byteEOFSrc) ReadByte() (byte, error) {
+	if len(s.data) == 0 {
+		return 0, io.EOF
+	}
+	b := s.data[0]
+	s.data = s.data[1:]
+	return b, nil
+}
+
 type byteOnlySrc struct{ s *byteSrc }
 
 func (b byteOnlySrc) Read(p []byte) (int, error) { return b.s.Read(p) }
@@ -158,6 +178,8 @@ func mkSource(kind string, data []byte, failAfter, tag int, adv []int, frags []i
 		return &advSrc{data: data, failAfter: failAfter, tag: tag, adv: adv}
 	case "byte":
 		return byteOnlySrc{&byteSrc{advSrc{data: data, failAfter: failAfter, tag: tag}}}
+	case "byteeof":
+		return &byteEOFSrc{data: data}
 	case "bytes":
 		return bytes.NewReader(data)
 	case "buffer":
